@@ -152,6 +152,15 @@ PROPS["C20"]["families"] = [GENERAL_S, fam("fam_hist", 60, 1500), fam("fam_hist_
 
 # direction 2: behaviours generated by TLC from the specification, replayed on the real code (lib/simreplay.py)
 import simreplay
+import edgecover
+
+
+def edge(cfg, module=None):
+    """complete edge cover of a small state graph (lib/edgecover.py); the counts are ignored - the family is the whole cover"""
+    return {"name": "edge_" + cfg, "gen": edgecover.fam_edge(module or cfg, "EDGE_" + cfg), "quick": 1, "thorough": 1}
+
+
+PROPS["C13"]["families"] = PROPS["C13"]["families"] + [edge("MC_Ring")]
 
 
 def sim(cfg, module, quick=30, thorough=600, depth=120):
